@@ -16,6 +16,25 @@
 
 #include "array/buffer_alloc.c"
 
+/* sizes at the limits are written symbolically: "max-k" = SIZE_MAX-k, "smax-k" = LONG_MAX-k, "smax+k" */
+#include <limits.h>
+static size_t drv_size(const struct cmd *c, const char *key, size_t def)
+{
+	const char *r = drv_raw(c, key);
+	if (!r || !*r) return def;
+	if (!strncmp(r, "max-", 4)) return SIZE_MAX - (size_t) strtoull(r + 4, 0, 0);
+	if (!strncmp(r, "smax-", 5)) return (size_t) LONG_MAX - (size_t) strtoull(r + 5, 0, 0);
+	if (!strncmp(r, "smax+", 5)) return (size_t) LONG_MAX + (size_t) strtoull(r + 5, 0, 0);
+	return (size_t) strtoull(r, 0, 0);
+}
+static long drv_long(const struct cmd *c, const char *key, long def)
+{
+	const char *r = drv_raw(c, key);
+	if (!r || !*r) return def;
+	if (!strncmp(r, "smax-", 5)) return LONG_MAX - strtol(r + 5, 0, 0);
+	return strtol(r, 0, 0);
+}
+
 #define MAXH 8
 
 static MPT_STRUCT(array) arr[MAXH];
@@ -160,6 +179,7 @@ static void answer(struct cmd *c, const char *ret, const void *out, size_t outle
 static void drv_step(struct cmd *c)
 {
 	const char *a = c->action;
+	int huge_len = 0;
 	size_t dl = 0, size0 = 0, used0 = 0;
 	uint8_t *data = 0;
 	int h = (int) drv_int(c, "h", 1) - 1;
@@ -184,6 +204,10 @@ static void drv_step(struct cmd *c)
 		used0 = ar->_buf->_used;
 	}
 	if (drv_has(c, "data")) data = drv_bytes(c, "data", &dl);
+	if (drv_size(c, "hl", 0)) {          /* a length at the limits: no data exists for it */
+		dl = drv_size(c, "hl", 0);
+		huge_len = 1;
+	}
 
 	if (!strcmp(a, "new")) {
 		int flags = (drv_int(c, "imm", 0) ? MPT_ENUM(BufferImmutable) : 0)
@@ -205,25 +229,25 @@ static void drv_step(struct cmd *c)
 		answer(c, "ok", 0, 0, size0, used0, 0);
 	}
 	else if (!strcmp(a, "append")) {
-		void *p = mpt_array_append(ar, dl, drv_int(c, "zero", 0) ? 0 : data);
+		void *p = mpt_array_append(ar, dl, (huge_len || drv_int(c, "zero", 0)) ? 0 : data);
 		answer(c, p ? "ok" : "refused", 0, 0, size0, used0, 0);
 	}
 	else if (!strcmp(a, "insert")) {
-		void *p = mpt_array_insert(ar, drv_uint(c, "pos", 0), dl);
-		if (p && dl) memcpy(p, data, dl);   /* the caller fills the new region */
+		void *p = mpt_array_insert(ar, drv_size(c, "pos", 0), dl);
+		if (p && dl && !huge_len) memcpy(p, data, dl);   /* the caller fills the new region */
 		answer(c, p ? "ok" : "refused", 0, 0, size0, used0, 0);
 	}
 	else if (!strcmp(a, "settyped")) {
-		void *p = mpt_array_set(ar, traits_of(drv_raw(c, "typ")), dl, drv_int(c, "zero", 0) ? 0 : data, (long) drv_int(c, "off", 0));
+		void *p = mpt_array_set(ar, traits_of(drv_raw(c, "typ")), dl, (huge_len || drv_int(c, "zero", 0)) ? 0 : data, drv_long(c, "off", 0));
 		answer(c, p ? "ok" : "refused", 0, 0, size0, used0, 0);
 	}
 	else if (!strcmp(a, "slice")) {
-		void *p = mpt_array_slice(ar, drv_uint(c, "off", 0), dl);
-		if (p && dl && drv_int(c, "fill", 0)) memcpy(p, data, dl);
+		void *p = mpt_array_slice(ar, drv_size(c, "off", 0), dl);
+		if (p && dl && !huge_len && drv_int(c, "fill", 0)) memcpy(p, data, dl);
 		answer(c, p ? "ok" : "refused", 0, 0, size0, used0, 0);
 	}
 	else if (!strcmp(a, "reserve")) {
-		MPT_STRUCT(buffer) *b = mpt_array_reserve(ar, drv_uint(c, "len", 0), traits_of(drv_raw(c, "typ")));
+		MPT_STRUCT(buffer) *b = mpt_array_reserve(ar, drv_size(c, "len", 0), traits_of(drv_raw(c, "typ")));
 		answer(c, b ? "ok" : "refused", 0, 0, size0, used0, 0);
 	}
 	else if (!strcmp(a, "clone")) {
@@ -254,17 +278,17 @@ static void drv_step(struct cmd *c)
 	}
 	else if (!strcmp(a, "slicewrite")) {
 		MPT_STRUCT(slice) sl = MPT_SLICE_INIT;
-		size_t nblk = drv_uint(c, "nblk", 0), esz = drv_uint(c, "esz", 1);
+		size_t nblk = drv_size(c, "nblk", 0), esz = drv_size(c, "esz", 1);
 		ssize_t r;
 		/* a slice window lies inside the data (caller's duty) */
-		if (drv_uint(c, "off", 0) + drv_uint(c, "len", 0) > used0) {
+		if (drv_size(c, "off", 0) > used0 || drv_size(c, "len", 0) > used0 - drv_size(c, "off", 0)) {
 			answer(c, "skipped", 0, 0, size0, used0, 0);
 			free(data);
 			return;
 		}
 		sl._a._buf = ar->_buf;   /* the handle is the slice's array */
-		sl._off = drv_uint(c, "off", 0);
-		sl._len = drv_uint(c, "len", 0);
+		sl._off = drv_size(c, "off", 0);
+		sl._len = drv_size(c, "len", 0);
 		r = mpt_slice_write(&sl, nblk, drv_int(c, "zero", 0) ? 0 : data, esz);
 		ar->_buf = sl._a._buf;
 		if (r < 0) answer(c, "refused", 0, 0, size0, used0, r);
@@ -285,16 +309,16 @@ static void drv_step(struct cmd *c)
 			answer(c, "skipped", 0, 0, size0, used0, 0);
 		}
 		else if (a[3] == 'i') {
-			void *p = mpt_buffer_insert(b, drv_uint(c, "pos", 0), dl);
-			if (p && dl) memcpy(p, data, dl);
+			void *p = mpt_buffer_insert(b, drv_size(c, "pos", 0), dl);
+			if (p && dl && !huge_len) memcpy(p, data, dl);
 			answer(c, p ? "ok" : "refused", 0, 0, size0, used0, 0);
 		}
 		else if (a[3] == 'c') {
-			ssize_t r = mpt_buffer_cut(b, drv_uint(c, "off", 0), drv_uint(c, "n", 0));
+			ssize_t r = mpt_buffer_cut(b, drv_size(c, "off", 0), drv_size(c, "n", 0));
 			answer(c, r < 0 ? "refused" : "ok", 0, 0, size0, used0, r);
 		}
 		else {
-			long r = mpt_buffer_set(b, traits_of(drv_raw(c, "typ")), drv_uint(c, "pos", 0), drv_int(c, "zero", 0) ? 0 : data, dl);
+			long r = mpt_buffer_set(b, traits_of(drv_raw(c, "typ")), drv_size(c, "pos", 0), (huge_len || drv_int(c, "zero", 0)) ? 0 : data, dl);
 			answer(c, r < 0 ? "refused" : "ok", 0, 0, size0, used0, r);
 		}
 	}
